@@ -34,7 +34,8 @@ CRATES = {
         "attach": [("src/writer.rs", "cdbc/writer.rs", "verif_kani_writer", ""),
                    ("src/lib.rs", "env/vmap.rs", "verif_vmap", "pub(crate)")],
         # scratch copy only: the writer's string-offset table becomes the association-list model of HashMap
-        "rewrite": [("src/writer.rs", r"^use std::collections::HashMap;$", "#[cfg(kani)] use crate::verif_vmap::VMap as HashMap;\n#[cfg(not(kani))] use std::collections::HashMap;")],
+        "rewrite": [("src/writer.rs", r"^use std::collections::HashMap;$", "#[cfg(kani)] use crate::verif_vmap::VMap as HashMap;\n#[cfg(not(kani))] use std::collections::HashMap;"),
+                    ("src/parser.rs", r"^use std::collections::HashMap;$", "#[cfg(kani)] use crate::verif_vmap::VMap as HashMap;\n#[cfg(not(kani))] use std::collections::HashMap;")],
         "kani_args": ["--lib"],
     },
     "ffi": {
@@ -277,7 +278,7 @@ H("C17", "cdbc", _D, "thorough", "C17.c strings survive write->parse (incl. a st
   ["c17c_strings_roundtrip_with_duplicate"], ["writer::DbcWriter::{write_records,build_string_block,write_record,write_value}", "parser::DbcParser::{parse_bytes,with_schema,parse_records}",
    "parser::RecordSet::get_string", "stringblock::StringBlock::{parse,get_string}"],
   "three records with one string field referencing the concrete strings a, a, b", "3 records, 1 string field",
-  stubs=[FMT, RS, "std::collections::HashMap in writer.rs -> association-list model harness/env/vmap.rs (scratch-copy rewrite; same insert/get/contains_key semantics)"], timeout=2400)
+  stubs=[FMT, RS, "std::collections::HashMap in writer.rs -> association-list model harness/env/vmap.rs (scratch-copy rewrite; same insert/get/contains_key semantics)", "std::str::from_utf8 -> accepts the (concrete ASCII) bytes without the validation loops"], timeout=2400)
 H("C17", "cdbc", _D, "quick", "canary", ["c17_canary"], ["field_parser::parse_field_value"], "vacuity twin", "-", expect="canary", stubs=[FMT, RS])
 H("C05", "cdbc", _D, "quick", "C05.dbc header parsers and string lookups are total (no panic/overflow), derived offsets do not overflow",
   ["c05_dbc_header_total", "c05_dbc_wdb2_header_total", "c05_dbc_wdb5_header_total", "c05_dbc_string_block_total"],
@@ -461,11 +462,11 @@ H("C10", "mpq", _BP, "quick", "C10.d a single-byte change anywhere in a checksum
 # remove step does not finish in 40 minutes (Vec<ChainEntry> insert/remove of ~0.5 KB structs, PathBuf
 # comparisons, Archive drop glue).  Chain ordering and content resolution stay outside the claim (DESIGN 0.2).
 _CH = "verif_kani_chain"
-H("C08", "mpq", _P, "quick", "C08.b the digest checks accept exactly when the digest of the data equals the declared digest (no bypass for any declared value)",
+H("C08", "mpq", _P, "thorough", "C08.b the digest checks accept exactly when the digest of the data equals the declared digest (no bypass for any declared value)",
   ["c08b_verify_accepts_iff_digest_matches"], ["patch::header::PatchFile::{verify_base,verify_patched}"],
   "3 data bytes and both declared 16-byte digests symbolic", "3-byte data (one digest block)",
   stubs=[FMT, "md5::compress::compress -> a cheap mixing function (abstraction: the real MD5 rounds are SAT-hard; the verifier must agree with whatever digest function is plugged in)"],
-  abstraction_stubs=["md5::compress"], timeout=900)
+  abstraction_stubs=["md5::compress"], timeout=2400)
 
 # ------------------------------------------------------------------------------- C02.d reference writer -> real reader
 H("C02", "mpq", _BP, "quick", "C02.d files laid out per the published format by a reference writer are read bit-identically: stored file (single-unit or not), compressed one-sector file with a sector offset table",
@@ -489,6 +490,10 @@ H("C10", "mpq", _AT, "quick", "C10.c (attributes) write->parse keeps every per-f
 H("C10", "mpq", _AT, "quick", "canary", ["c10c_canary"], ["special_files::attributes::Attributes::to_bytes"], "vacuity twin", "-", expect="canary", stubs=[FMT])
 H("C05", "mpq", _AT, "quick", "C05.mpq.5 (attributes) parser is total on hostile content", ["c05_attributes_parse_total"],
   ["special_files::attributes::Attributes::parse"], "24 bytes symbolic behind the version word, block counts 0, 1, 2", "24-byte file, <= 2 blocks", stubs=[FMT], timeout=900)
+
+# c02d_builder_to_reference_ms_* (builder -> reference reader of the multi-sector layout) are NOT registered:
+# 20 min time-out / memory cap on this machine (512-byte sector copies + a data-dependent raw/compressed
+# decision per sector); the sector layout of compressed multi-sector files stays outside the C02 claim.
 
 
 # =============================================================================== per-property fragments
